@@ -72,40 +72,29 @@ def scan_forbidden():
     return hits
 
 
-def audit(pid):
-    """Compile Props/<pid>.v, parse theorems and their assumptions."""
-    props = os.path.join(COQ, "Props", pid + ".v")
-    res = {"obligations": 0, "discharged": 0, "theorems": [], "axioms": [], "broken": [],
-           "checker_cmd": "cd /verif/coq && make -f Makefile.coq (full .vo build) && coqc -Q . GB Props/%s.v "
-                          "(Print Assumptions under every theorem)" % pid,
-           "trusted_base": list(TRUSTED_BASE)}
-    if not os.path.exists(props):
-        res["broken"].append("missing " + props)
-        return res
+def _audit_file(pid, relname, res):
+    """Compile one Props file, parse its theorems and their assumptions into res."""
+    props = os.path.join(COQ, relname)
     with open(props) as f:
         src = f.read()
     theorems = re.findall(r"^\s*(?:Theorem|Example)\s+(\w+)", src, flags=re.M)
     printed = re.findall(r"^\s*Print Assumptions\s+(\w+)\s*\.", src, flags=re.M)
-    res["obligations"] = len(theorems)
+    res["obligations"] += len(theorems)
     missing = [t for t in theorems if t not in printed]
     if missing:
         res["broken"].append("no Print Assumptions for: " + ", ".join(missing))
-    hits = scan_forbidden()
-    if hits:
-        res["broken"].append("forbidden tokens: " + "; ".join(hits[:10]))
-    p = subprocess.run(["timeout", "600", "coqc", "-Q", ".", "GB", os.path.join("Props", pid + ".v")],
+    p = subprocess.run(["timeout", "900", "coqc", "-Q", ".", "GB", relname],
                        cwd=COQ, capture_output=True, text=True)
     if p.returncode != 0:
-        res["broken"].append("coqc Props/%s.v failed: %s" % (pid, (p.stderr or p.stdout)[-1500:]))
-        return res
+        res["broken"].append("coqc %s failed: %s" % (relname, (p.stderr or p.stdout)[-1500:]))
+        return 0
     # split the output into one chunk per Print Assumptions
     out = p.stdout
     chunks = re.split(r"(?=Closed under the global context|Axioms:)", out)
     chunks = [c for c in chunks if c.startswith("Closed under") or c.startswith("Axioms:")]
     if len(chunks) != len(printed):
-        res["broken"].append("expected %d Print Assumptions outputs, got %d" % (len(printed), len(chunks)))
-        return res
-    axioms_all = set()
+        res["broken"].append("%s: expected %d Print Assumptions outputs, got %d" % (relname, len(printed), len(chunks)))
+        return 0
     good = 0
     for name, ch in zip(printed, chunks):
         if ch.startswith("Closed under"):
@@ -115,11 +104,39 @@ def audit(pid):
             axs = [a for a in axs if a != "Axioms"]
         bad = [a for a in axs if a not in ALLOWED_AXIOMS]
         res["theorems"].append({"name": name, "assumptions": axs})
-        axioms_all.update(axs)
+        res["_axioms"].update(axs)
         if bad:
             res["broken"].append("theorem %s depends on non-allowed assumptions: %s" % (name, ", ".join(bad)))
         elif name in theorems:
             good += 1
+    return good
+
+
+def props_files(pid):
+    """Props/<pid>.v plus any Props/<pid>_*.v (a property's theorems may be spread over several files)."""
+    d = os.path.join(COQ, "Props")
+    names = [pid + ".v"] + sorted(n for n in os.listdir(d) if n.startswith(pid + "_") and n.endswith(".v"))
+    return [os.path.join("Props", n) for n in names]
+
+
+def audit(pid):
+    """Compile Props/<pid>.v (and Props/<pid>_*.v), parse theorems and their assumptions."""
+    props = os.path.join(COQ, "Props", pid + ".v")
+    res = {"obligations": 0, "discharged": 0, "theorems": [], "axioms": [], "broken": [], "_axioms": set(),
+           "checker_cmd": "cd /verif/coq && make -f Makefile.coq (full .vo build) && coqc -Q . GB Props/%s.v [Props/%s_*.v] "
+                          "(Print Assumptions under every theorem)" % (pid, pid),
+           "trusted_base": list(TRUSTED_BASE)}
+    if not os.path.exists(props):
+        res["broken"].append("missing " + props)
+        del res["_axioms"]
+        return res
+    hits = scan_forbidden()
+    if hits:
+        res["broken"].append("forbidden tokens: " + "; ".join(hits[:10]))
+    good = 0
+    for rel in props_files(pid):
+        good += _audit_file(pid, rel, res)
+    axioms_all = res.pop("_axioms")
     res["axioms"] = sorted(axioms_all)
     res["discharged"] = good if not res["broken"] else min(good, max(0, res["obligations"] - 1))
     if axioms_all:
